@@ -143,7 +143,7 @@ func operandExpr(c *Case, prelude *string, name string, v lang.Value, prov int) 
 }
 
 func TestC01Table(t *testing.T) {
-	defer silence()()
+	defer silenceAs("table")()
 	col := evid.New("C01", "table", "exhaustive operator x type-pair x boundary-value table (4 provenances) plus random nestings; "+
 		"non-trivial = an operator applied to two computed operands (table: every cell; random: >=1 binary operator evaluated); distinct by script text + inputs")
 	defer col.Flush()
@@ -263,7 +263,7 @@ func drawBindings(t *rapid.T, n int, c *Case, prelude *string) []gen.Binding {
 }
 
 func TestC01Random(t *testing.T) {
-	defer silence()()
+	defer silenceAs("random")()
 	col := evid.New("C01", "random", "")
 	avoided := 0
 	maxDepth := scale(4, 6)
